@@ -114,7 +114,7 @@ def PK.str : PK → Str
 def cmwbPrefix := "strings.TrimPrefix(elem(ext.params),\"client_max_window_bits=\")"
 
 def envAcceptDeflate (more seen : Bool) (k : PK) : Env :=
-  mkEnv ([("more(ext.params)", more), ("make(map[string]bool,len(ext.params))[name]", seen),
+  mkEnv ([("more(ext.params)", more), ("lookup(make(map[string]bool,len(ext.params)))", seen),
     ("elem(ext.params)!=\"client_no_context_takeover\"", k != .cnct), ("elem(ext.params)!=\"server_no_context_takeover\"", k != .snct),
     ("elem(ext.params)!=\"client_max_window_bits\"", k != .cmwb), ("elem(ext.params)!=\"server_max_window_bits=15\"", k != .smwb15),
     ("strings.HasPrefix(elem(ext.params),\"client_max_window_bits=\")", match k with | .cmwbVal _ => true | .cmwbBad => true | _ => false)]
